@@ -191,7 +191,7 @@ impl Run {
     pub fn new(id: &'static str, tier: Tier, root: PathBuf) -> Run {
         let seed = std::env::var("VERIF_SEED").ok().and_then(|s| s.parse().ok()).unwrap_or(0);
         let threads = std::env::var("VERIF_THREADS").ok().and_then(|s| s.parse().ok()).unwrap_or_else(|| std::thread::available_parallelism().map(|n| n.get()).unwrap_or(8).min(16));
-        let cap = std::env::var("VERIF_WALL_CAP_S").ok().and_then(|s| s.parse().ok()).unwrap_or(if tier.quick() { 150u64 } else { 3600u64 });
+        let cap = std::env::var("VERIF_WALL_CAP_S").ok().and_then(|s| s.parse().ok()).unwrap_or(if tier.quick() { 150u64 } else { 7200u64 });
         let start = Instant::now();
         Run {
             id,
